@@ -25,6 +25,35 @@ template <class R> inline std::string rel_str(const R& r) { FaultPause fp; std::
 
 const dimension_type MAXDIM = 6;
 
+// Independent oracle for Box::upper_bound_assign_if_exact: the union of two non-empty boxes is a box iff one contains
+// the other, or they differ in exactly one dimension and the two intervals there overlap or are adjacent (same
+// finite value, at most one of the facing boundaries open).  Intervals are read through has_lower/upper_bound.
+struct OIv { bool lo_inf = true, hi_inf = true, lo_closed = false, hi_closed = false; mpq_class lo, hi; };
+template <class B> inline std::vector<OIv> box_intervals(const B& b) {
+  std::vector<OIv> v(b.space_dimension());
+  for (dimension_type k = 0; k < b.space_dimension(); ++k) { Coefficient n, d; bool cl;
+    if (b.has_lower_bound(Variable(k), n, d, cl)) { v[k].lo_inf = false; v[k].lo = mpq_class(n, d); v[k].lo.canonicalize(); v[k].lo_closed = cl; }
+    if (b.has_upper_bound(Variable(k), n, d, cl)) { v[k].hi_inf = false; v[k].hi = mpq_class(n, d); v[k].hi.canonicalize(); v[k].hi_closed = cl; } }
+  return v;
+}
+inline bool oiv_lo_le(const OIv& a, const OIv& b) { if (a.lo_inf) return true; if (b.lo_inf) return false; if (a.lo != b.lo) return a.lo < b.lo; return a.lo_closed || !b.lo_closed; }   // a's lower boundary admits everything b's does
+inline bool oiv_hi_ge(const OIv& a, const OIv& b) { if (a.hi_inf) return true; if (b.hi_inf) return false; if (a.hi != b.hi) return a.hi > b.hi; return a.hi_closed || !b.hi_closed; }
+inline bool oiv_contains(const OIv& a, const OIv& b) { return oiv_lo_le(a, b) && oiv_hi_ge(a, b); }
+inline bool oiv_gap(const OIv& left, const OIv& right) {      // is there a hole between `left' (below) and `right' (above)?
+  if (left.hi_inf || right.lo_inf) return false;
+  if (left.hi < right.lo) return true;
+  if (left.hi > right.lo) return false;
+  return !left.hi_closed && !right.lo_closed;
+}
+template <class B> inline bool box_union_is_box(const B& a, const B& b) {
+  std::vector<OIv> x = box_intervals(a), y = box_intervals(b);
+  bool a_in_b = true, b_in_a = true; size_t differing = 0, kd = 0;
+  for (size_t k = 0; k < x.size(); ++k) { bool c1 = oiv_contains(y[k], x[k]), c2 = oiv_contains(x[k], y[k]); a_in_b = a_in_b && c1; b_in_a = b_in_a && c2; if (!(c1 && c2)) { ++differing; kd = k; } }
+  if (a_in_b || b_in_a) return true;
+  if (differing != 1) return false;
+  return !oiv_gap(x[kd], y[kd]) && !oiv_gap(y[kd], x[kd]);
+}
+
 // Independent oracle for the optimisation queries of the closed, constraint-based domains (C polyhedra, BD shapes,
 // octagons, closed boxes): an exact rational simplex (oracle/exact_lp.hh, ~120 lines, self-tested) on the constraints
 // of a private copy.  Returns false when the oracle does not apply (strict inequalities, grids, containers).
@@ -175,7 +204,22 @@ template <class D> void add_common_ops(ObjHarness<D>& H) {
       PREPF { D* x = e.o[0]; const D* y = e.o[1]; return [x, y]() { x->poly_difference_assign(*y); return std::string(); }; } });
   }
   H.add({ "upper_bound_assign_if_exact", 2, F_VAL | F_ANS | F_FAULT | F_SAMEDIM, 4, NOGEN,
-    PREPF { D* x = e.o[0]; const D* y = e.o[1]; return [x, y]() { return b2s(x->upper_bound_assign_if_exact(*y)); }; } });
+    PREPF { D* x = e.o[0]; const D* y = e.o[1]; return [x, y]() {
+      Bits px, py; std::shared_ptr<D> bx, by;
+      if (g_def.active) { FaultPause fp; px = defbits(*x); py = defbits(*y); if constexpr (K == BOX) { bx.reset(new D(*x)); by.reset(new D(*y)); } }
+      bool b = x->upper_bound_assign_if_exact(*y);
+      if (g_def.active) { FaultPause fp; Bits post = defbits(*x);
+        // "true exactly when the union already belongs to the domain": a true answer leaves exactly the union, a false one leaves x alone
+        if (b) { Bits un = px; for (size_t i = 0; i < un.size() && i < py.size(); ++i) un[i] = un[i] || py[i];
+          // (products answer component-wise: the intersection of two exact unions only has to contain the union of the intersections)
+          if constexpr (K == PROD) { Bits all(un.size(), true); def_expect_between("upper_bound_assign_if_exact", x->space_dimension(), un, post, all); }
+          else def_expect_eq("upper_bound_assign_if_exact", x->space_dimension(), post, un); }
+        else def_expect_eq("upper_bound_assign_if_exact-unchanged", x->space_dimension(), post, px);
+        if constexpr (K == BOX) { bool ea, eb; { D t(*bx); ea = t.is_empty(); } { D t(*by); eb = t.is_empty(); }
+          if (!ea && !eb) { bool want = box_union_is_box(*bx, *by); g_def.ctx->stat("box_union_oracle_checks");
+            if (want != b) def_violation("exact-union-oracle", std::string("upper_bound_assign_if_exact answered ") + (b ? "true" : "false") + " but the union of the two boxes is " + (want ? "" : "not ") + "a box (interval-wise oracle)"); } }
+      }
+      return b2s(b); }; } });
   if constexpr (K != PROD) {
   H.add({ "simplify_using_context_assign", 2, F_ANS | F_FAULT | F_SAMEDIM, 3, NOGEN,
     PREPF { D* x = e.o[0]; const D* y = e.o[1]; return [x, y]() { return b2s(x->simplify_using_context_assign(*y)); }; } });
@@ -414,7 +458,11 @@ template <class D> void add_common_ops(ObjHarness<D>& H) {
             }
             else {
               Generator g = (t <= 1 || zero) ? Generator::point(le, den) : (t == 2) ? Generator::closure_point(le, den) : (t <= 4) ? Generator::ray(le) : Generator::line(le);
-              return [x, g]() { return rel_str(x->relation_with(g)); };
+              return [x, g]() { PPL::Poly_Gen_Relation rel = x->relation_with(g);
+                if (g_def.active && g.is_point()) { FaultPause fp; D cpy(*x); QPoint p = oracle::vec_of(g, x->space_dimension(), true);    // missing coordinates are zero
+                  bool want = member_of(cpy, p), got = rel.implies(PPL::Poly_Gen_Relation::subsumes());
+                  if (want != got) def_violation("def-relation_with_generator", std::string("relation_with(point ") + oracle::show(p) + ") says " + (got ? "subsumes" : "nothing") + " but the point is " + (want ? "" : "not ") + "a member"); }
+                return rel_str(rel); };
             } } });
   H.add({ "contains", 2, F_OBS | F_ANS | F_FAULT | F_SAMEDIM, 5, NOGEN,
     PREPF { D* x = e.o[0]; const D* y = e.o[1]; return [x, y]() { bool b = x->contains(*y);
